@@ -803,7 +803,7 @@ class TexExpr(object):
         TexExpr('textbf', ['hello', 'world'])
         """
         self._assert_supports_contents()
-        self._contents.extend(exprs)
+        self.insert(len(self._contents), *exprs)
 
     def insert(self, i, *exprs):
         """Insert content at specified position into expression.
@@ -823,6 +823,8 @@ class TexExpr(object):
         """
         self._assert_supports_contents()
         for j, expr in enumerate(exprs):
+            if isinstance(expr, TexNode):
+                expr = expr.expr  # store the expression, not its wrapper
             if isinstance(expr, TexExpr):
                 expr.parent = self
             self._contents.insert(i + j, expr)
